@@ -410,6 +410,15 @@ func cmdCheck(args []string) int {
 	var outOfSub []string
 	nq := 0
 	for _, fn := range fns {
+		// a function that is new in this tree, has no contract and can be inlined is verified where it is called
+		// (inline.go), not on its own: it has no preconditions to be verified under
+		if c.KnownFns != nil && !c.KnownFns[funcKey(fn)] && c.S.Contracts[c.keyOf(fn)] == nil {
+			probe := &Gen{P: c.P, S: c.S, knownFns: c.KnownFns}
+			if probe.canInline(fn) {
+				fmt.Printf("NOTE: %s is new in this tree and has no contract: verified at its call sites (inlined), not on its own\n", c.keyOf(fn))
+				continue
+			}
+		}
 		var forb []Forbid
 		for _, f := range cfg.ForbidLookup {
 			for _, pat := range f.Functions {
